@@ -13,6 +13,9 @@ for d in seeded/*/ mutants/*/; do
     C16-f|C11-e|C08-e) p="${n%%-*} C01";; C10-f) p="C10 C08";; C01-e) p="C01 C02 C15";;
     C18-g|C04-g|C06-g|C03-h|C02-h|C13-h|C09-g|C17-g) p="${n%%-*} C20";;   # round 4: breaks only under concurrent use; the owning check is C20
     C13-i|C15-j) p="${n%%-*} C09";;   # round 5: lost gradient only after a reset between forward and backward (outside C08's provisos); the same change makes BackPropagate panic -> C09
+    C07-q|C07-r) p="C07 C01";;   # round 9: engine-level accumulation at expansion factor 1 - the total derivative is C01's
+    C12-r) p="C12 C13";;         # round 9: changes the loss by less than the conditioning of log(1-p) at the clipping bound (it is closer to the defined value); the gradient at a clipped prediction is C13's
+    C11-q) p="C11 C15";;         # round 9: tie weight of ElMax/ElMin when only some elements tie - the derivative at the kink is C15's
     C01-p) p="C01 C02";;   # round 8: the StdAlong rule at a spread below 1e-12 - single-operation values are C02's
     C*) p=${n%%-*};;
     revert-fix1) p="C01 C13 C15 C11";; revert-fix2) p=C02;; revert-fix3) p=C02;; revert-fix4) p="C02 C13 C15";;
